@@ -162,6 +162,9 @@ fn run_program(p: &mut Program) -> Result<(Vec<String>, Vec<String>, String), (S
 /// consumed at its type (bound to a name, compared with the literal form), so a component typed differently the
 /// second time it occurs shows as a rejection. Both programs are accepted and print the reference's lines, or both
 /// are rejected.
+/// how often every program repeats all its comparisons in one run
+const ROUNDS: usize = 24;
+
 fn repeated_variable_check(acc: &mut Stats, d: &Domain, op: Option<BinOp>) {
     let scalar = d.name == "int" || d.name == "float";
     let shapes: Vec<&str> = match op {
@@ -411,6 +414,11 @@ pub fn run(run: &mut Run) {
             ts.push(top_fn(&name, vec![], RetAnn::Void, chunk.to_vec()));
             start_body.push(Stmt::Expr(callv(&name, vec![])));
         }
+        // everything once more in the same run: a result must not depend on how many comparisons came before it
+        let again = start_body.clone();
+        for _ in 1..ROUNDS {
+            start_body.extend(again.clone());
+        }
         ts.push(start_fn(start_body));
         let mut p = Program { tops: ts };
         acc.programs += 1;
@@ -433,8 +441,10 @@ pub fn run(run: &mut Run) {
                 acc.states += labels.len() as u64;
                 acc.traces_validated += 1;
                 let n = labels.len();
+                let blocks = (lua.len() / n.max(1)).max(1);
+                let per_round = (blocks / ROUNDS).max(1);
                 for (k, label) in labels.iter().enumerate() {
-                    for half in 0..(lua.len() / n.max(1)).max(1) {
+                    for half in 0..blocks {
                         let idx = half * n + k;
                         if idx >= lua.len() || idx >= reference.len() {
                             continue;
@@ -449,7 +459,7 @@ pub fn run(run: &mut Run) {
                             acc.fail(Failure {
                                 sig: format!("wrong-result:{}", opname),
                                 preds: vec![format!("domain:{}", d.name)],
-                                detail: format!("{} ({}): Lua printed {:?}, the structural definition gives {:?}", label, match half { 0 => "literals", 1 => "through variables", _ => "assembled from component globals declared later" }, lua[idx], reference[idx]),
+                                detail: format!("{} ({}, round {} of 24 in one run): Lua printed {:?}, the structural definition gives {:?}", label, match half % per_round { 0 => "literals", 1 => "through variables", _ => "assembled from component globals declared later" }, half / per_round + 1, lua[idx], reference[idx]),
                                 case: json!({"engine": "c19", "files": files, "line": idx, "expected": reference[idx]}),
                                 size: label.len(),
                             });
@@ -539,7 +549,7 @@ pub fn run(run: &mut Run) {
     }
     library_values(&mut st);
     run.stats = st;
-    run.rule = "value domains: ints, floats, strings, bools, tuples of arity 0-3 (int, float/int, int/str, nested), lists (of ints, tuples, lists), a two-field blob, a blob nesting a blob, an enum with payload / without / tuple payload; every ordered pair of each domain (as literals, through variables, and as constants assembled from component globals declared after them) under every operator the checker types for it (== != < <= > >= + - * / and unary -), int x float under < >; the same operators on composites that mention one variable at every position ((v, v), (v, (v, v)), and (v, v) / w for numbers) with the result bound to a name and compared with the form that has a literal at every position - both forms accepted with the reference's output or both rejected; enum values made by the standard library (list.get / last / pop / find, dict.get) against the same values written in source, bare and nested in tuples and lists, under == and != (121 ordered pairs x 5 nestings); non-trivial = every evaluated operator application; distinct by operands+operator".into();
+    run.rule = "value domains: ints, floats, strings, bools, tuples of arity 0-3 (int, float/int, int/str, nested), lists (of ints, tuples, lists), a two-field blob, a blob nesting a blob, an enum with payload / without / tuple payload; every ordered pair of each domain (as literals, through variables, and as constants assembled from component globals declared after them) under every operator the checker types for it (== != < <= > >= + - * / and unary -), int x float under < >; every program evaluates all its pairs 24 times in one run (a result must not depend on how many comparisons came before); the same operators on composites that mention one variable at every position ((v, v), (v, (v, v)), and (v, v) / w for numbers) with the result bound to a name and compared with the form that has a literal at every position - both forms accepted with the reference's output or both rejected; enum values made by the standard library (list.get / last / pop / find, dict.get) against the same values written in source, bare and nested in tuples and lists, under == and != (121 ordered pairs x 5 nestings); non-trivial = every evaluated operator application; distinct by operands+operator".into();
     run.bounds = json!({"domains": doms.iter().map(|d| json!({"name": d.name, "values": d.values.len()})).collect::<Vec<_>>()});
     run.assumptions = vec![
         "the structural definition is RefSylt's (element-wise arithmetic, lexicographic order, structural equality), the laws are checked on the Lua results alone".into(),
